@@ -3,7 +3,7 @@
    the implementation on logged event streams); proofs: Asm/Proofs.v.  That the bytes are the instructions written and that labels,
    operands and edges are the ones the text asks for is decided on the implementation against the text (harness/c12.py). *)
 From Coq Require Import ZArith List Bool Arith.
-From GR Require Import Base.Result IR.State Asm.Model Asm.Proofs Asm.Edges.
+From GR Require Import Base.Result IR.State Asm.Model Asm.Proofs Asm.Edges Asm.CreateIR.
 Import ListNotations.
 Open Scope Z_scope.
 
@@ -103,3 +103,17 @@ Example C12_nonvacuous :
   | Err _ => False
   end.
 Proof. vm_compute. reflexivity. Qed.
+
+(* ---- the IR a result turns into (create_ir): operand sizes are recorded against the interval of the section they belong to ---- *)
+Theorem C12_ir_operand_sizes_stay_with_their_section : forall s x o z,
+  NoDup (map as_name (a_sects s)) -> In x (a_sects s) ->
+  (In ((as_name x, o), z) (ir_sizes s) <-> In (o, z) (as_sizes x)).
+Proof. exact ir_sizes_per_section. Qed.
+
+Theorem C12_ir_operand_sizes_name_sections_of_the_result : forall s n o z,
+  In ((n, o), z) (ir_sizes s) -> In n (map as_name (a_sects s)).
+Proof. exact ir_sizes_only_sections. Qed.
+
+Theorem C12_ir_alignment_is_the_sections_alignment : forall s b a,
+  In (b, a) (ir_alignment s) <-> exists x, In x (a_sects s) /\ In (b, a) (as_align x).
+Proof. exact ir_alignment_In. Qed.
